@@ -24,16 +24,20 @@ type COp struct {
 	S    int    `json:"s"`              // salt: -1 nil, 0 empty (non-nil), 1..3
 	I    int    `json:"i"`              // info: likewise
 	EWI  bool   `json:"ewi,omitempty"`  // the payload implements EventWrapperInfo
+	F    int    `json:"f,omitempty"`    // which filter the operation goes to: 0 = the case's filter, 1 = a second filter built from the SAME salt / info slices
+	Orig bool   `json:"orig,omitempty"` // rotate: back to the very slices the filters were built from (the caller's configuration)
+	TM   bool   `json:"tm,omitempty"`   // the payload is a Taggable map: data[0] as []byte and as string under hmac tags, data[1] likewise under encrypt tags
 	EvID int    `json:"evid,omitempty"` // event id "ev<n>", 0 = ""
 	Data []int  `json:"data,omitempty"` // data ids of the five filtered fields
 }
 type CCase struct {
-	ID   int    `json:"id"`
-	Gen  string `json:"gen"`
-	Init COp    `json:"init"`
-	Ops  []COp  `json:"ops"`
-	Conc int    `json:"conc,omitempty"` // events processed concurrently with a sequence of rotations (0 = none)
-	CB   bool   `json:"cb,omitempty"`   // one event with per-event wrapper info whose Tags() callback rotates the filter
+	ID    int    `json:"id"`
+	Gen   string `json:"gen"`
+	Init  COp    `json:"init"`
+	Ops   []COp  `json:"ops"`
+	Conc  int    `json:"conc,omitempty"`  // events processed concurrently with a sequence of rotations (0 = none)
+	Alias bool   `json:"alias,omitempty"` // a second filter shares the initial salt / info slices; it is emitted as the case with the next id
+	CB    bool   `json:"cb,omitempty"`    // one event with per-event wrapper info whose Tags() callback rotates the filter
 }
 
 type CPlain struct {
@@ -92,21 +96,39 @@ func callbackPart(c CCase, keys []keyCand) []string {
 	return out
 }
 
+// CTM: a Taggable map holding the same data as []byte and as string under tagged keys
+type CTM map[string]interface{}
+
+func (t CTM) Tags() ([]encrypt.PointerTag, error) {
+	return []encrypt.PointerTag{
+		{Pointer: "/hb", Classification: encrypt.SensitiveClassification, Filter: encrypt.HmacSha256Operation},
+		{Pointer: "/hs", Classification: encrypt.SecretClassification, Filter: encrypt.HmacSha256Operation},
+		{Pointer: "/eb", Classification: encrypt.SensitiveClassification},
+		{Pointer: "/es", Classification: encrypt.SecretClassification, Filter: encrypt.EncryptOperation}}, nil
+}
+
 func (p *CEwi) EventId() string  { return p.id }
 func (p *CEwi) HmacSalt() []byte { return p.salt }
 func (p *CEwi) HmacInfo() []byte { return p.info }
 
 var cWrappers = []string{"", "w1", "w2", "w3", "w4"}
 
+// -1 nil, 0 empty (non-nil), 1..3 values of one length, 4 a shorter and 5 a longer one
 func poolBytes(kind string, i int) []byte {
 	switch {
 	case i < 0:
 		return nil
 	case i == 0:
 		return []byte{}
+	case i == 4:
+		return []byte(kind[:1] + "4")
+	case i == 5:
+		return []byte(kind + "-5-a-longer-value")
 	}
 	return []byte(fmt.Sprintf("%s-%d", kind, i))
 }
+
+const poolMax = 5
 
 var dataPool [][]byte
 
@@ -187,8 +209,8 @@ func attributeHmac(s string, orig []byte, did int, keys []keyCand, ship bool) (s
 		return "VUnknown", attribution{}
 	}
 	for _, k := range keys {
-		for si := 0; si <= 3; si++ { // nil and empty are the same HKDF salt: 0 stands for both
-			for ii := 0; ii <= 3; ii++ {
+		for si := 0; si <= poolMax; si++ { // nil and empty are the same HKDF salt: 0 stands for both
+			for ii := 0; ii <= poolMax; ii++ {
 				if hmacFramed(k.key, poolBytes("salt", si), poolBytes("info", ii), orig) == s {
 					framed := "[]"
 					if ship {
@@ -219,6 +241,9 @@ func rotOpts(o COp) []encrypt.Option {
 
 func mkPayload(o COp) interface{} {
 	d := func(i int) []byte { return append([]byte{}, dataPool[o.Data[i]]...) }
+	if o.TM {
+		return CTM{"hb": d(0), "hs": string(d(0)), "eb": d(1), "es": string(d(1))}
+	}
 	if o.EWI {
 		id := ""
 		if o.EvID > 0 {
@@ -235,6 +260,17 @@ func outFields(p interface{}) []string {
 		return []string{x.E1, string(x.E2), x.H1, string(x.H2), x.E3}
 	case *CEwi:
 		return []string{x.E1, string(x.E2), x.H1, string(x.H2), x.E3}
+	case CTM:
+		out := make([]string, 4)
+		for i, k := range []string{"hb", "hs", "eb", "es"} {
+			switch v := x[k].(type) {
+			case string:
+				out[i] = v
+			case []byte:
+				out[i] = string(v)
+			}
+		}
+		return out
 	}
 	return nil
 }
@@ -243,6 +279,7 @@ var concValues int // HMAC values produced under concurrent rotation and attribu
 
 type cresult struct {
 	lit     string
+	lit2    string // the second filter of an aliasing case (its own history, judged against its own key in force)
 	log     []string
 	nontriv bool
 	panics  []string
@@ -251,11 +288,17 @@ type cresult struct {
 func execCrypto(c CCase) cresult {
 	ctx := context.Background()
 	keys := keyCands()
-	f := &encrypt.Filter{Wrapper: cWrapper(c.Init.W), HmacSalt: poolBytes("salt", c.Init.S), HmacInfo: poolBytes("info", c.Init.I)}
+	origSalt, origInfo := poolBytes("salt", c.Init.S), poolBytes("info", c.Init.I)
+	filters := []*encrypt.Filter{{Wrapper: cWrapper(c.Init.W), HmacSalt: origSalt, HmacInfo: origInfo}}
+	if c.Alias {
+		// a second filter configured with the very same slices
+		filters = append(filters, &encrypt.Filter{Wrapper: cWrapper(c.Init.W), HmacSalt: origSalt, HmacInfo: origInfo})
+	}
 	var res cresult
-	var steps []string
+	stepsOf := make([][]string, len(filters))
 	rotated, shipped := false, false
 	for n, o := range c.Ops {
+		f := filters[o.F%len(filters)]
 		var opLit, obs string
 		func() {
 			defer func() {
@@ -266,8 +309,13 @@ func execCrypto(c CCase) cresult {
 			}()
 			switch o.K {
 			case "rotate":
-				opLit = fmt.Sprintf("ORotate N %s %s %s", optKeyLit(o.W), optBstrLit(o.S), optBstrLit(o.I))
-				f.Rotate(rotOpts(o)...)
+				if o.Orig {
+					opLit = fmt.Sprintf("ORotate N None %s %s", optBstrLit(c.Init.S), optBstrLit(c.Init.I))
+					f.Rotate(encrypt.WithSalt(origSalt), encrypt.WithInfo(origInfo))
+				} else {
+					opLit = fmt.Sprintf("ORotate N %s %s %s", optKeyLit(o.W), optBstrLit(o.S), optBstrLit(o.I))
+					f.Rotate(rotOpts(o)...)
+				}
 				obs = "CoNone"
 				rotated = true
 			case "rotpayload":
@@ -291,10 +339,17 @@ func execCrypto(c CCase) cresult {
 					}
 					ewi = fmt.Sprintf("(Some (%s, %s, %s))", id, optBstrLit(o.S), optBstrLit(o.I))
 				}
-				vals := make([]string, 5)
-				for i, d := range o.Data {
+				// which data id and which operation each output field carries
+				dataOf := o.Data
+				isHmac := func(i int) bool { return i == 2 || i == 3 }
+				if o.TM {
+					dataOf = []int{o.Data[0], o.Data[0], o.Data[1], o.Data[1]}
+					isHmac = func(i int) bool { return i < 2 }
+				}
+				vals := make([]string, len(dataOf))
+				for i, d := range dataOf {
 					cop := "CEnc []"
-					if i == 2 || i == 3 {
+					if isHmac(i) {
 						cop = "CHmac"
 					}
 					vals[i] = fmt.Sprintf("(%s, %s)", cop, bstrLit2(d))
@@ -315,10 +370,10 @@ func execCrypto(c CCase) cresult {
 					shipped = true
 					items := make([]string, len(fs))
 					for i, s := range fs {
-						orig := dataPool[o.Data[i]]
-						if i == 2 || i == 3 {
+						orig := dataPool[dataOf[i]]
+						if isHmac(i) {
 							var a attribution
-							items[i], a = attributeHmac(s, orig, o.Data[i], keys, ship)
+							items[i], a = attributeHmac(s, orig, dataOf[i], keys, ship)
 							res.log = append(res.log, fmt.Sprintf("step %d value %d: hmac under key %d salt %d info %d (found %v)", n, i, a.kid, a.sid, a.iid, a.ok))
 						} else {
 							items[i] = attributeEnc(s, orig, keys, ship)
@@ -332,12 +387,17 @@ func execCrypto(c CCase) cresult {
 				}
 			}
 		}()
-		steps = append(steps, fmt.Sprintf("(%s, %s)", opLit, obs))
+		stepsOf[o.F%len(filters)] = append(stepsOf[o.F%len(filters)], fmt.Sprintf("(%s, %s)", opLit, obs))
 	}
+	steps := stepsOf[0]
 	conc := concurrentPart(c, keys, &res)
 	concValues += len(conc)
 	res.lit = fmt.Sprintf("{| cc_id := %s; cc_init := {| f_wrap := %s; f_salt := %s; f_info := %s |};\n   cc_steps := %s;\n   cc_conc := %s; cc_cb := %s |}",
 		hc.N(c.ID), optKeyLit(c.Init.W), optBstrLit(c.Init.S), optBstrLit(c.Init.I), hc.List(steps), hc.List(conc), hc.List(callbackPart(c, keys)))
+	if c.Alias {
+		res.lit2 = fmt.Sprintf("{| cc_id := %s; cc_init := {| f_wrap := %s; f_salt := %s; f_info := %s |};\n   cc_steps := %s;\n   cc_conc := []; cc_cb := [] |}",
+			hc.N(c.ID+1), optKeyLit(c.Init.W), optBstrLit(c.Init.S), optBstrLit(c.Init.I), hc.List(stepsOf[1]))
+	}
 	return res
 }
 
@@ -355,6 +415,7 @@ func concurrentPart(c CCase, keys []keyCand, res *cresult) []string {
 	f := &encrypt.Filter{Wrapper: cWrapper(1), HmacSalt: poolBytes("salt", 1), HmacInfo: poolBytes("info", 1)}
 	stop := make(chan struct{})
 	var wg, rot sync.WaitGroup
+	last := 1 // the rotation in force once the rotator has stopped
 	rot.Add(1)
 	go func() {
 		defer rot.Done()
@@ -366,33 +427,55 @@ func concurrentPart(c CCase, keys []keyCand, res *cresult) []string {
 			}
 			k := 1 + j%3
 			f.Rotate(encrypt.WithWrapper(cWrapper(k)), encrypt.WithSalt(poolBytes("salt", k)), encrypt.WithInfo(poolBytes("info", k)))
+			last = k
 		}
 	}()
 	var mu sync.Mutex
 	var out []string
+	bad := "(0%N, 1%N, 2%N)"
+	// one event: plain, or with per-event wrapper info (recurring event ids, no salt / info of its own: those in force at its
+	// start); want > 0: the event started after the last rotation and must be under exactly that one
+	one := func(evid, want int) {
+		var p interface{} = &CPlain{E1: "x", E2: []byte("y"), H1: "data", H2: []byte("data"), E3: "z"}
+		if evid > 0 {
+			p = &CEwi{E1: "x", E2: []byte("y"), H1: "data", H2: []byte("data"), E3: "z", id: fmt.Sprintf("Ev-%d", evid)}
+		}
+		ev, err := f.Process(ctx, &el.Event{Type: "t", CreatedAt: fixedTime, Payload: p})
+		var items []string
+		if err != nil || ev == nil {
+			items = []string{bad}
+		} else {
+			fs := outFields(ev.Payload)
+			for _, s := range []string{fs[2], fs[3]} {
+				_, a := attributeHmac(s, []byte("data"), 0, keys, false)
+				base := a.kid
+				okID := evid == 0
+				if evid > 0 {
+					base, okID = a.kid/1000, a.kid%1000 == evid
+				}
+				switch {
+				case !a.ok || !okID:
+					items = append(items, bad)
+				case want > 0 && (base != want || a.sid != want || a.iid != want):
+					items = append(items, bad)
+				default:
+					items = append(items, fmt.Sprintf("(%s, %s, %s)", hc.N(base), hc.N(a.sid), hc.N(a.iid)))
+				}
+			}
+		}
+		mu.Lock()
+		out = append(out, items...)
+		mu.Unlock()
+	}
 	for g := 0; g < 4; g++ {
 		wg.Add(1)
 		go func(g int) {
 			defer wg.Done()
 			for n := 0; n < c.Conc; n++ {
-				p := &CPlain{E1: "x", E2: []byte("y"), H1: "data", H2: []byte("data"), E3: "z"}
-				ev, err := f.Process(ctx, &el.Event{Type: "t", CreatedAt: fixedTime, Payload: p})
-				if err != nil || ev == nil {
-					mu.Lock()
-					out = append(out, "(0%N, 1%N, 2%N)")
-					mu.Unlock()
-					continue
-				}
-				q := ev.Payload.(*CPlain)
-				for _, s := range []string{q.H1, string(q.H2)} {
-					_, a := attributeHmac(s, []byte("data"), 0, keys, false)
-					mu.Lock()
-					if a.ok {
-						out = append(out, fmt.Sprintf("(%s, %s, %s)", hc.N(a.kid), hc.N(a.sid), hc.N(a.iid)))
-					} else {
-						out = append(out, "(0%N, 1%N, 2%N)")
-					}
-					mu.Unlock()
+				if g%2 == 0 {
+					one(0, 0)
+				} else {
+					one(1+(n+g)%3, 0)
 				}
 			}
 		}(g)
@@ -400,13 +483,20 @@ func concurrentPart(c CCase, keys []keyCand, res *cresult) []string {
 	wg.Wait()
 	close(stop)
 	rot.Wait()
+	// events started after the last Rotate returned: every one under the key, salt and info now in force
+	for n := 0; n < 3; n++ {
+		one(0, last)
+		for e := 1; e <= 3; e++ {
+			one(e, last)
+		}
+	}
 	return out
 }
 
 func (g *gen) cryptoCase(n int) CCase {
 	r := g.r
 	pick := func() int { return r.Intn(len(dataPool)) }
-	comp := func() int { return r.Intn(5) - 1 } // -1 nil, 0 empty, 1..3
+	comp := func() int { return r.Intn(poolMax+2) - 1 } // -1 nil, 0 empty, 1..5
 	c := CCase{Gen: "random", Init: COp{W: r.Intn(5), S: comp(), I: comp()}}
 	if r.Chance(4, 5) && c.Init.W == 0 {
 		c.Init.W = 1 + r.Intn(4)
@@ -419,7 +509,9 @@ func (g *gen) cryptoCase(n int) CCase {
 			c.Ops = append(c.Ops, COp{K: "rotpayload", W: r.Intn(5), S: comp(), I: comp()})
 		default:
 			o := COp{K: "event", S: -1, I: -1, Data: []int{pick(), pick(), pick(), pick(), pick()}}
-			if r.Chance(2, 5) {
+			if r.Chance(1, 6) {
+				o.TM = true
+			} else if r.Chance(2, 5) {
 				o.EWI = true
 				o.EvID = r.Intn(4)
 				if r.Chance(3, 4) && o.EvID == 0 {
@@ -454,11 +546,20 @@ func cryptoSpecials() []CCase {
 			{K: "rotpayload", W: 0, S: 0, I: -1},
 			{K: "event", S: -1, I: -1, Data: all(d)},
 			{K: "event", EWI: true, EvID: 0, S: 1, I: 1, Data: all(d)},
-			{K: "event", EWI: true, EvID: 2, S: 3, I: 3, Data: all(d)}}})
+			{K: "event", EWI: true, EvID: 2, S: 3, I: 3, Data: all(d)},
+			{K: "event", TM: true, S: -1, I: -1, Data: all(d)}}})
 	}
 	out = append(out, CCase{Gen: "special", Init: COp{W: 0, S: -1, I: -1}, Ops: []COp{
 		{K: "event", S: -1, I: -1, Data: all(1)}, {K: "event", EWI: true, EvID: 1, S: -1, I: -1, Data: all(1)},
 		{K: "rotpayload", W: 3, S: -1, I: -1}, {K: "event", S: -1, I: -1, Data: all(1)}, {K: "event", EWI: true, EvID: 3, S: -1, I: -1, Data: all(1)}}})
+	// two filters built from the same salt / info slices: rotating one (to a shorter, an equally long, a longer value, and back
+	// to the caller's original slices) must never show in the other, and each is judged against its own history
+	evA := COp{K: "event", S: -1, I: -1, Data: all(1)}
+	evB := evA
+	evB.F = 1
+	out = append(out, CCase{Gen: "aliasing", Alias: true, Init: COp{W: 1, S: 1, I: 1}, Ops: []COp{evA, evB,
+		{K: "rotate", S: 4, I: -1}, evA, evB, {K: "rotate", S: 2, I: 2}, evA, evB, {K: "rotate", S: 5, I: 5}, evA, evB,
+		{K: "rotate", Orig: true}, evA, evB, {K: "rotate", F: 1, S: 3, I: 4}, evA, evB, {K: "rotate", S: 3, I: -1}, {K: "rotate", Orig: true}, evA, evB}})
 	out = append(out, CCase{Gen: "concurrent", Init: COp{W: 1, S: 1, I: 1}, Conc: 150})
 	out = append(out, CCase{Gen: "callback-rotation", Init: COp{W: 1, S: 1, I: 1}, CB: true})
 	return out
@@ -487,6 +588,16 @@ func mainCrypto(out, prefix string, perShard, n int, corpus string, concOnly boo
 		}
 		js, _ := json.Marshal(c)
 		side.Write(append(js, '\n'))
+		if r.lit2 != "" {
+			id++
+			if err := cf.Add(r.lit2); err != nil {
+				panic(err)
+			}
+			c2 := c
+			c2.ID = id
+			js2, _ := json.Marshal(c2)
+			side.Write(append(js2, '\n'))
+		}
 		stats["cases"]++
 		stats["gen:"+c.Gen]++
 		for _, o := range c.Ops {
